@@ -604,6 +604,138 @@ func (t *trans) switchBlock(key string, idx int, leanName string, varTypes map[s
 		idx, key, t.p.fset.Position(sw.Pos()), strings.Join(assigned, ", "), strings.Join(fv, ", "), leanName, strings.Join(params, " "), tupleTy(resT), b.String())
 }
 
+// forLoop translates the idx-th `for i := init; i < bound; i++ { … }` of a function whose body consists of
+// `x := e`, `x = e`, `x op= e` and `if c { break }`: a function (with explicit fuel) from the loop variable and
+// the variables the body assigns to their final values
+func (t *trans) forLoop(key string, idx int, leanName string, varTypes map[string]gty) string {
+	d := t.p.funcs[key]
+	var loop *ast.ForStmt
+	n := 0
+	ast.Inspect(d.Body, func(nd ast.Node) bool {
+		if s, ok := nd.(*ast.ForStmt); ok {
+			if n == idx {
+				loop = s
+			}
+			n++
+		}
+		return true
+	})
+	if loop == nil {
+		panic(fmt.Sprintf("translate: %s has no for loop #%d", key, idx))
+	}
+	t.recv = ""
+	t.fields = map[string]gty{}
+	t.env = map[string]gty{}
+	for k, v := range varTypes {
+		t.env[k] = v
+	}
+	// header: i := init; i < bound; i++
+	init, ok := loop.Init.(*ast.AssignStmt)
+	if !ok || init.Tok != token.DEFINE || len(init.Lhs) != 1 {
+		panic("translate: for loop without `i := init`")
+	}
+	iv := init.Lhs[0].(*ast.Ident).Name
+	initS, ity := t.expr(init.Rhs[0], "")
+	if ity == "" {
+		panic("translate: untyped loop variable")
+	}
+	t.env[iv] = ity
+	cond, ok := loop.Cond.(*ast.BinaryExpr)
+	if !ok || cond.Op != token.LSS || exprText(t.p.fset, cond.X) != iv {
+		panic("translate: for condition is not `i < bound`")
+	}
+	if inc, ok := loop.Post.(*ast.IncDecStmt); !ok || inc.Tok != token.INC || exprText(t.p.fset, inc.X) != iv {
+		panic("translate: for post statement is not `i++`")
+	}
+	// the bound is evaluated on every iteration in Go; it must not depend on variables the body assigns
+	mutated := map[string]bool{}
+	for _, st := range loop.Body.List {
+		if as, ok := st.(*ast.AssignStmt); ok && as.Tok != token.DEFINE {
+			mutated[as.Lhs[0].(*ast.Ident).Name] = true
+		}
+	}
+	free := map[string]bool{}
+	collect := func(e ast.Node) {
+		ast.Inspect(e, func(nd ast.Node) bool {
+			if id, ok := nd.(*ast.Ident); ok {
+				if _, isVar := varTypes[id.Name]; isVar {
+					free[id.Name] = true
+				}
+			}
+			return true
+		})
+	}
+	collect(cond.Y)
+	for v := range mutated {
+		if free[v] {
+			panic("translate: loop bound depends on a variable assigned in the body")
+		}
+	}
+	boundS, _ := t.expr(cond.Y, ity)
+	collect(loop.Body)
+	var mut []string
+	for v := range mutated {
+		mut = append(mut, v)
+		delete(free, v)
+	}
+	sort.Strings(mut)
+	var fv []string
+	for v := range free {
+		fv = append(fv, v)
+	}
+	sort.Strings(fv)
+	state := func() string {
+		if len(mut) == 1 {
+			return mut[0]
+		}
+		return "(" + strings.Join(mut, ", ") + ")"
+	}
+	var body func(list []ast.Stmt) string
+	body = func(list []ast.Stmt) string {
+		if len(list) == 0 {
+			return fmt.Sprintf("%s %s fuel (%s + 1) %s", leanName, strings.Join(fv, " "), iv, strings.Join(mut, " "))
+		}
+		switch st := list[0].(type) {
+		case *ast.AssignStmt:
+			name := st.Lhs[0].(*ast.Ident).Name
+			var e string
+			var ty gty
+			switch st.Tok {
+			case token.DEFINE, token.ASSIGN:
+				e, ty = t.expr(st.Rhs[0], t.env[name])
+			case token.AND_ASSIGN:
+				e, ty = t.expr(&ast.BinaryExpr{X: st.Lhs[0], Op: token.AND, Y: st.Rhs[0]}, t.env[name])
+			default:
+				panic("translate: unsupported assignment operator in a loop: " + st.Tok.String())
+			}
+			t.env[name] = ty
+			return fmt.Sprintf("let %s : %s := %s\n      %s", name, leanTy(ty), e, body(list[1:]))
+		case *ast.IfStmt:
+			if len(st.Body.List) == 1 {
+				if br, ok := st.Body.List[0].(*ast.BranchStmt); ok && br.Tok == token.BREAK && st.Else == nil {
+					c, _ := t.expr(st.Cond, "bool")
+					return fmt.Sprintf("if %s then %s else\n      %s", c, state(), body(list[1:]))
+				}
+			}
+		}
+		panic(fmt.Sprintf("translate: unsupported statement in a loop: %T", list[0]))
+	}
+	bodyS := body(loop.Body.List)
+	var params []string
+	for _, v := range fv {
+		params = append(params, fmt.Sprintf("(%s : %s)", v, leanTy(varTypes[v])))
+	}
+	var mparams, mtypes []string
+	for _, v := range mut {
+		mparams = append(mparams, v)
+		mtypes = append(mtypes, leanTy(varTypes[v]))
+	}
+	return fmt.Sprintf("/-- for loop #%d of %s (%s): from the loop variable `%s` (initially %s) and %s to the final %s;\n    `fuel` bounds the number of iterations -/\ndef %s %s : Nat → %s → %s → %s\n  | 0, _, %s => %s\n  | fuel+1, %s, %s =>\n    if (decide (%s < %s)) then\n      %s\n    else %s\n",
+		idx, key, t.p.fset.Position(loop.Pos()), iv, initS, strings.Join(mut, ", "), strings.Join(mut, ", "),
+		leanName, strings.Join(params, " "), leanTy(ity), strings.Join(mtypes, " → "), strings.Join(mtypes, " × "),
+		strings.Join(mparams, ", "), state(), iv, strings.Join(mparams, ", "), iv, boundS, bodyS, state())
+}
+
 func emitTranslated(p *pkgInfo) (out string, err error) {
 	defer func() {
 		if r := recover(); r != nil {
@@ -637,6 +769,9 @@ func emitTranslated(p *pkgInfo) (out string, err error) {
 	b.WriteString(t.switchBlock("genUfloatRange", 0, "ufloatSwitchSI", vt))
 	b.WriteString("\n")
 	b.WriteString(t.switchBlock("genUfloatRange", 1, "ufloatSwitchSF", vt))
+	b.WriteString("\n")
+	vt["maxR"], vt["r"], vt["sf"] = "i64", "u64", "u64"
+	b.WriteString(t.forLoop("genUfloatRange", 0, "ufloatClearLoop", vt))
 	b.WriteString("\nend Rapid.Translated\n")
 	return b.String(), nil
 }
